@@ -38,6 +38,15 @@ var weirdVersions = []string{"", "0", "-1", "+3", "007", "abc", "999999999999999
 
 func genSpec(rng *rand.Rand, nkeys int) world.Spec {
 	k := cacheKeys[rng.Intn(nkeys)]
+	if k[0] == "n-1" || k[0] == "n" {
+		// the two "colliding" slots of the universe hold this run's confusable pair
+		pair := confusablePairs[GenIdx%len(confusablePairs)]
+		if k[0] == "n-1" {
+			k = pair[0]
+		} else {
+			k = pair[1]
+		}
+	}
 	s := world.Spec{NS: k[0], Name: k[1], Labels: randLabels(rng), UID: pick(rng, "", "", "u1", "u1", "u2")}
 	if rng.Intn(8) == 0 {
 		s.RV = weirdVersions[rng.Intn(len(weirdVersions))]
@@ -335,7 +344,21 @@ func runCache(sci interface{}) {
 		}()
 	}
 
-	universe := cacheKeys
+	// every key the script mentions (plus the fixed ones)
+	universe := append([][2]string(nil), cacheKeys...)
+	seenKey := map[[2]string]bool{}
+	for _, k := range universe {
+		seenKey[k] = true
+	}
+	for _, op := range sc.Ops {
+		for _, o := range append([]world.Spec{op.Obj}, op.List...) {
+			k := [2]string{o.NS, o.Name}
+			if o.Name != "" && !seenKey[k] && len(universe) < 24 {
+				seenKey[k] = true
+				universe = append(universe, k)
+			}
+		}
+	}
 	for i, op := range sc.Ops {
 		before := world.NewMirror("replay", ref.List())
 		before.Strict = true
